@@ -67,7 +67,7 @@ local macro "fin " x:term : tactic =>
     | (refine Core.congr $x ?_ ?_ <;> (simp [live, rb.1.err, rb2.1.err, *]; done)))
 
 local macro "tr" : tactic => `(tactic| first | trivial | rfl)
-local macro "lrfl" : tactic => `(tactic| first | (simp [live]; done) | rfl)
+local macro "lrfl" : tactic => `(tactic| first | (simp [live, pushPending]; done) | rfl)
 
 /-- "the window reaches the end, or `x` has not hit EOF" -/
 abbrev EO (F : Prop) (x : Tokenizer) : Prop := F ∨ x.err = false
@@ -260,6 +260,12 @@ theorem attrValRest_err (t : Tokenizer) (h : t.err = true) : (attrValRest t).err
   simp only
   have h1 := skipWhiteSpace_err t h
   simp [h1]
+
+theorem attrValRest_err' (t : Tokenizer) (h : t.skipWhiteSpace.err = true) : (attrValRest t).err = true := by
+  unfold attrValRest; simp [h]
+
+theorem attrValGo_err' (t : Tokenizer) (h : t.skipWhiteSpace.err = true) : (attrValGo t).err = true := by
+  unfold attrValGo; simp [h]
 
 theorem attrValGo_err (t : Tokenizer) (h : t.err = true) : (attrValGo t).err = true := by
   unfold attrValGo
@@ -934,16 +940,16 @@ theorem tagNameGo_sim {F : Prop} {p : Nat} (t u : Tokenizer) (c : Core F p t u) 
     conv => arg 3; rw [tagNameGo]
     sif [rb.1.err, rb.2, *]
     fin rb.1.dataE_rawE
-  case case2 herr _ =>
+  case case2 =>
     have rb := readByte_sim c (by have := e; simp only [EO, setDataEndBack_err] at this; exact this)
     conv => arg 3; rw [tagNameGo]
     sif [rb.1.err, rb.2, *]
-    exact setDataEndBack_sim 1 rb.1 (readByte_pos herr)
-  case case3 herr _ _ =>
+    exact setDataEndBack_sim 1 rb.1 (readByte_pos (t := _) (by assumption))
+  case case3 =>
     have rb := readByte_sim c (by have := e; simp only [EO, unread_err] at this; exact this)
     conv => arg 3; rw [tagNameGo]
     sif [rb.1.err, rb.2, *]
-    fin (unread_sim 1 rb.1 (readByte_pos herr)).dataE_rawE
+    fin (unread_sim 1 rb.1 (readByte_pos (t := _) (by assumption))).dataE_rawE
   case case4 ih =>
     have rb := readByte_sim c (e.back (tagNameGo_err _))
     conv => arg 3; rw [tagNameGo]
@@ -970,24 +976,173 @@ theorem attrKeyGo_sim {F : Prop} {p : Nat} (t u : Tokenizer) (c : Core F p t u) 
     conv => arg 3; rw [attrKeyGo]
     sif [rb.1.err, rb.2, *]
     fin (rb.1.congr (t' := { t.readByte.1 with pkE := t.readByte.1.rawE }) (by lrfl) (by lrfl))
-  case case2 herr _ h0 => have := readByte_pos herr; omega
-  case case3 herr _ h0 =>
+  case case2 herr _ h0 => have := readByte_pos (t := _) (by assumption); omega
+  case case3 =>
     have rb := readByte_sim c e
     have ht0 : ¬ t.readByte.1.rawE = 0 := by have := rb.1.rawE; omega
     conv => arg 3; rw [attrKeyGo]
     sif [rb.1.err, rb.2, ht0, *]
     fin (rb.1.congr (t' := { t.readByte.1 with pkE := t.readByte.1.rawE - 1 }) (by lrfl) (by lrfl))
-  case case4 herr _ _ =>
+  case case4 =>
     have rb := readByte_sim c (by have := e; simp only [EO, unread_err] at this; exact this)
     conv => arg 3; rw [attrKeyGo]
     sif [rb.1.err, rb.2, *]
-    fin ((unread_sim 1 rb.1 (readByte_pos herr)).congr
+    fin ((unread_sim 1 rb.1 (readByte_pos (t := _) (by assumption))).congr
       (t' := { t.readByte.1.unread 1 with pkE := (t.readByte.1.unread 1).rawE }) (by lrfl) (by lrfl))
   case case5 ih =>
     have rb := readByte_sim c (e.back (attrKeyGo_err _))
     conv => arg 3; rw [attrKeyGo]
     sif [rb.1.err, rb.2, *]
     exact ih _ rb.1 (readByte_adv ok).ok e
+
+theorem readTagAttrKey_sim {F : Prop} {p : Nat} (t u : Tokenizer) (c : Core F p t u) (ok : Ok u)
+    (e : EO F (readTagAttrKey u)) : Core F p (readTagAttrKey t) (readTagAttrKey u) := by
+  unfold readTagAttrKey at e ⊢
+  exact attrKeyGo_sim _ _ (c.congr (by lrfl) (by lrfl)) ⟨ok.le, ok.panic, ok.hang, ok.utf8⟩ e
+
+theorem attrValQuotedGo_sim {F : Prop} {p : Nat} (t u : Tokenizer) (q : Nat) (c : Core F p t u) (ok : Ok u)
+    (e : EO F (attrValQuotedGo u q)) : Core F p (attrValQuotedGo t q) (attrValQuotedGo u q) := by
+  fun_induction attrValQuotedGo u q generalizing t
+  all_goals (try simp +zetaDelta only at *)
+  case case1 =>
+    have rb := readByte_sim c e
+    conv => arg 3; rw [attrValQuotedGo]
+    sif [rb.1.err, rb.2, *]
+    fin (rb.1.congr (t' := { t.readByte.1 with pvE := t.readByte.1.rawE }) (by lrfl) (by lrfl))
+  case case2 => have := readByte_pos (t := _) (by assumption); omega
+  case case3 =>
+    have rb := readByte_sim c e
+    have ht0 : ¬ t.readByte.1.rawE = 0 := by have := rb.1.rawE; omega
+    conv => arg 3; rw [attrValQuotedGo]
+    sif [rb.1.err, rb.2, ht0, *]
+    fin (rb.1.congr (t' := { t.readByte.1 with pvE := t.readByte.1.rawE - 1 }) (by lrfl) (by lrfl))
+  case case4 ih =>
+    have rb := readByte_sim c (e.back (attrValQuotedGo_err _ _))
+    conv => arg 3; rw [attrValQuotedGo]
+    sif [rb.1.err, rb.2, *]
+    exact ih _ rb.1 (readByte_adv ok).ok e
+
+theorem attrValUnquotedGo_sim {F : Prop} {p : Nat} (t u : Tokenizer) (c : Core F p t u) (ok : Ok u)
+    (e : EO F (attrValUnquotedGo u)) : Core F p (attrValUnquotedGo t) (attrValUnquotedGo u) := by
+  fun_induction attrValUnquotedGo u generalizing t
+  all_goals (try simp +zetaDelta only at *)
+  case case1 =>
+    have rb := readByte_sim c e
+    conv => arg 3; rw [attrValUnquotedGo]
+    sif [rb.1.err, rb.2, *]
+    fin (rb.1.congr (t' := { t.readByte.1 with pvE := t.readByte.1.rawE }) (by lrfl) (by lrfl))
+  case case2 => have := readByte_pos (t := _) (by assumption); omega
+  case case3 =>
+    have rb := readByte_sim c e
+    have ht0 : ¬ t.readByte.1.rawE = 0 := by have := rb.1.rawE; omega
+    conv => arg 3; rw [attrValUnquotedGo]
+    sif [rb.1.err, rb.2, ht0, *]
+    fin (rb.1.congr (t' := { t.readByte.1 with pvE := t.readByte.1.rawE - 1 }) (by lrfl) (by lrfl))
+  case case4 =>
+    have rb := readByte_sim c (by have := e; simp only [EO, unread_err] at this; exact this)
+    conv => arg 3; rw [attrValUnquotedGo]
+    sif [rb.1.err, rb.2, *]
+    fin ((unread_sim 1 rb.1 (readByte_pos (t := _) (by assumption))).congr
+      (t' := { t.readByte.1.unread 1 with pvE := (t.readByte.1.unread 1).rawE }) (by lrfl) (by lrfl))
+  case case5 ih =>
+    have rb := readByte_sim c (e.back (attrValUnquotedGo_err _))
+    conv => arg 3; rw [attrValUnquotedGo]
+    sif [rb.1.err, rb.2, *]
+    exact ih _ rb.1 (readByte_adv ok).ok e
+
+theorem attrValRest_sim {F : Prop} {p : Nat} (t u : Tokenizer) (c : Core F p t u) (ok : Ok u)
+    (e : EO F (attrValRest u)) : Core F p (attrValRest t) (attrValRest u) := by
+  have es : EO F u.skipWhiteSpace := e.back (attrValRest_err' u)
+  have sk := skipWhiteSpace_sim _ _ c ok es
+  have ska := skipWhiteSpace_adv _ ok
+  unfold attrValRest at e ⊢
+  simp only [sk.err] at e ⊢
+  generalize t.skipWhiteSpace = t2 at *
+  generalize u.skipWhiteSpace = u2 at *
+  by_cases h1 : u2.err = true
+  · sif [h1]; exact sk
+  · sif [h1] at e ⊢
+    have a4 := readByte_adv ska.ok
+    have eq : EO F u2.readByte.1 := e.back (fun h => by
+      have h2 := attrValQuotedGo_err { u2.readByte.1 with pvS := u2.readByte.1.rawE } u2.readByte.2 h
+      have h3 := attrValUnquotedGo_err { u2.readByte.1 with pvS := u2.readByte.1.rawE - 1 } h
+      (repeat' split) <;> simp_all)
+    have rb := readByte_sim sk eq
+    simp only [rb.1.err, rb.2] at e ⊢
+    by_cases h2 : u2.readByte.1.err = true
+    · sif [h2]; exact rb.1
+    · sif [h2] at e ⊢
+      have hp := readByte_pos h2
+      by_cases h3 : (u2.readByte.2 == 62) = true
+      · sif [h3]; exact unread_sim 1 rb.1 hp
+      · sif [h3] at e ⊢
+        by_cases h4 : (u2.readByte.2 == 39 || u2.readByte.2 == 34) = true
+        · sif [h4] at e ⊢
+          have het := rb.1.err
+          refine attrValQuotedGo_sim _ _ _ (Core.congr rb.1 ?_ ?_) ⟨a4.ok.le, a4.ok.panic, a4.ok.hang, a4.ok.utf8⟩ e <;>
+            simp [live, *]
+        · sif [h4] at e ⊢
+          have hu0 : ¬ u2.readByte.1.rawE = 0 := by omega
+          have ht0 : ¬ t2.readByte.1.rawE = 0 := by have := rb.1.rawE; omega
+          sif [hu0, ht0] at e ⊢
+          have het := rb.1.err
+          refine attrValUnquotedGo_sim _ _ (Core.congr rb.1 ?_ ?_) ⟨a4.ok.le, a4.ok.panic, a4.ok.hang, a4.ok.utf8⟩ e <;>
+            simp [live, *]
+
+theorem attrValGo_sim {F : Prop} {p : Nat} (t u : Tokenizer) (c : Core F p t u) (ok : Ok u)
+    (e : EO F (attrValGo u)) : Core F p (attrValGo t) (attrValGo u) := by
+  have es : EO F u.skipWhiteSpace := e.back (attrValGo_err' u)
+  have sk := skipWhiteSpace_sim _ _ c ok es
+  have ska := skipWhiteSpace_adv _ ok
+  unfold attrValGo at e ⊢
+  simp only [sk.err] at e ⊢
+  generalize t.skipWhiteSpace = t1 at *
+  generalize u.skipWhiteSpace = u1 at *
+  by_cases h1 : u1.err = true
+  · sif [h1]; exact sk
+  · sif [h1] at e ⊢
+    have a2 := readByte_adv ska.ok
+    have eq : EO F u1.readByte.1 := e.back (fun h => by
+      have h2 := attrValRest_err _ h
+      (repeat' split) <;> simp_all)
+    have rb := readByte_sim sk eq
+    simp only [rb.1.err, rb.2] at e ⊢
+    by_cases h2 : u1.readByte.1.err = true
+    · sif [h2]; exact rb.1
+    · sif [h2] at e ⊢
+      by_cases h3 : (u1.readByte.2 != 61) = true
+      · sif [h3]; exact unread_sim 1 rb.1 (readByte_pos h2)
+      · sif [h3] at e ⊢
+        exact attrValRest_sim _ _ rb.1 a2.ok e
+
+theorem readTagAttrVal_sim {F : Prop} {p : Nat} (t u : Tokenizer) (c : Core F p t u) (ok : Ok u)
+    (e : EO F (readTagAttrVal u)) : Core F p (readTagAttrVal t) (readTagAttrVal u) := by
+  unfold readTagAttrVal at e ⊢
+  exact attrValGo_sim _ _ (c.congr (by lrfl) (by lrfl)) ⟨ok.le, ok.panic, ok.hang, ok.utf8⟩ e
+
+theorem readAttr_sim {F : Prop} {p : Nat} (t u : Tokenizer) (save : Bool) (c : Core F p t u) (ok : Ok u)
+    (e : EO F (readAttr u save)) : Core F p (readAttr t save) (readAttr u save) := by
+  have a1 := readTagAttrKey_adv u ok
+  have a2 := readTagAttrVal_adv _ a1.ok
+  have ev : EO F u.readTagAttrKey.readTagAttrVal := e.back (fun h => by
+    unfold readAttr; simp only; split <;> exact skipWhiteSpace_err _ h)
+  have k := readTagAttrKey_sim _ _ c ok (ev.back (readTagAttrVal_err _))
+  have v := readTagAttrVal_sim _ _ k a1.ok ev
+  unfold readAttr at e ⊢
+  simp only at e ⊢
+  generalize t.readTagAttrKey.readTagAttrVal = t2 at *
+  generalize u.readTagAttrKey.readTagAttrVal = u2 at *
+  have key : ∀ (t3 u3 : Tokenizer), live t3 = live t2 → live u3 = live u2 → EO F u3.skipWhiteSpace →
+      Core F p t3.skipWhiteSpace u3.skipWhiteSpace := by
+    intro t3 u3 h1 h2 e3
+    have ok3 : Ok u3 := by
+      simp only [live, Prod.mk.injEq] at h2
+      obtain ⟨b1, b2, b3, b4, b5, b6, b7, b8, b9, b10, b11⟩ := h2
+      exact ⟨by rw [b1, b3]; exact a2.ok.le, by rw [b9]; exact a2.ok.panic, by rw [b10]; exact a2.ok.hang,
+        by rw [b11]; exact a2.ok.utf8⟩
+    exact skipWhiteSpace_sim _ _ (v.congr h1 h2) ok3 e3
+  by_cases hu : (save && u2.pkS != u2.pkE) = true <;> by_cases ht : (save && t2.pkS != t2.pkE) = true <;>
+    sif [hu, ht] at e ⊢ <;> exact key _ _ (by lrfl) (by lrfl) e
 
 end Tokenizer
 end Rio.Html
